@@ -243,7 +243,8 @@ func analyse(stanzaNS, s string) (facts, error) {
 	}
 	f.start = st
 	f.k = kTop
-	if st.Name.Space == stanzaNS {
+	if stanzaNS == "" || st.Name.Space == stanzaNS {
+		// (a multiplexer without a stanza namespace routes the stanzas of any)
 		switch st.Name.Local {
 		case "iq":
 			f.k = kIQ
@@ -567,6 +568,10 @@ type tcase struct {
 	// xmlstream.Wrap, stanza.*.Wrap and xmlstream.MultiReader do: a stanza that
 	// was assembled from tokens or unwrapped from a carbon / forwarded message)
 	lastWithEOF bool
+	// the multiplexer is the zero value of ServeMux with the options applied to
+	// it directly (as disco.Handle does), not built by mux.New: it has no stanza
+	// namespace and routes the stanzas of any
+	zeroValue bool
 }
 
 func (c tcase) canon() string {
@@ -575,12 +580,16 @@ func (c tcase) canon() string {
 		ps[i] = p.String()
 	}
 	sort.Strings(ps)
-	return fmt.Sprintf("%s|%s|%s|%v|%v|%v", c.stanzaNS, strings.Join(ps, ","), c.xml, c.progs, c.live, c.lastWithEOF)
+	return fmt.Sprintf("%s|%s|%s|%v|%v|%v|%v", c.stanzaNS, strings.Join(ps, ","), c.xml, c.progs, c.live, c.lastWithEOF, c.zeroValue)
 }
 
 func (c tcase) describe() string {
 	var b strings.Builder
-	fmt.Fprintf(&b, "mux.New(%q) with %d patterns (registration order; F = Func adapter):\n", c.stanzaNS, len(c.cfg))
+	if c.zeroValue {
+		fmt.Fprintf(&b, "zero-value ServeMux (options applied directly) with %d patterns (registration order; F = Func adapter):\n", len(c.cfg))
+	} else {
+		fmt.Fprintf(&b, "mux.New(%q) with %d patterns (registration order; F = Func adapter):\n", c.stanzaNS, len(c.cfg))
+	}
 	for i, p := range c.cfg {
 		f := ""
 		if c.fn[i] {
@@ -649,7 +658,11 @@ type failer interface {
 // check is made.
 func runCase(t failer, c tcase, classify func(facts, expect)) {
 	t.Helper()
-	f, err := analyse(c.stanzaNS, c.xml)
+	refNS := c.stanzaNS
+	if c.zeroValue {
+		refNS = ""
+	}
+	f, err := analyse(refNS, c.xml)
 	if err != nil {
 		t.Fatalf("harness: generated input does not parse: %v\n%s", err, c.xml)
 	}
@@ -688,7 +701,14 @@ func runCase(t failer, c tcase, classify func(facts, expect)) {
 		for i, p := range c.cfg {
 			opts[i] = option(p, handler{rec: rec, pat: i}, c.fn[i])
 		}
-		m = mux.New(c.stanzaNS, opts...)
+		if c.zeroValue {
+			m = &mux.ServeMux{}
+			for _, o := range opts {
+				o(m)
+			}
+		} else {
+			m = mux.New(c.stanzaNS, opts...)
+		}
 	}); p != "" {
 		fail("registering distinct patterns with non-nil handlers was refused: %s", p)
 	}
@@ -1161,6 +1181,11 @@ func genCase(t *rapid.T) tcase {
 	c.progs = genProgs(t, 12)
 	c.live = rapid.Bool().Draw(t, "live")
 	c.lastWithEOF = !c.live && rapid.Bool().Draw(t, "lastWithEOF")
+	// (a top-level element that merely has a stanza's local name would be a
+	// stanza for such a multiplexer, without the attributes the generator gives
+	// stanzas: left to the builds with a stanza namespace)
+	stanzaLike := e.local == "iq" || e.local == "message" || e.local == "presence"
+	c.zeroValue = !topForStanza && (ik != kTop || !stanzaLike) && rapid.IntRange(0, 5).Draw(t, "zeroValue") == 0
 	return c
 }
 
@@ -1189,6 +1214,9 @@ func classify(c tcase) func(facts, expect) {
 		}
 		if c.lastWithEOF {
 			classes = append(classes, "reader-returns-last-token-with-EOF")
+		}
+		if c.zeroValue {
+			classes = append(classes, "zero-value-ServeMux")
 		}
 		for _, p := range c.cfg {
 			if p.k != kTop && (p.name.Space == c.stanzaNS || p.name.Local == "message" || p.name.Local == "presence") {
